@@ -447,14 +447,14 @@ def install_core(R):
     R.add(CR + "nan_like_result", result="V", pure=True, props=["C02"],
           loops={"comp0": dict(idx="_k", inv=[
               ("elementwise", "is_seq(_acc_comp0) and slen(_acc_comp0) == _k and forall(lambda k: implies(0 <= k and k < _k, "
-                              "sget(_acc_comp0, k) == NanOfShape(sget(res, k))))")])},
+                              "sget(_acc_comp0, k) == NanOfShape(sget(iter_(res), k))))")])},
           ensures=[
               ("none_for_bool_str", "implies((isinstance(res, bool) or isinstance(res, str)) and not isinstance(res, dict) "
                                     "and not isinst(res, 'Dataset') and not isinst(res, 'DataArray'), result is None)"),
               ("nan_per_element", "implies(not isinstance(res, bool) and not isinstance(res, str) and not isinstance(res, dict) "
                                   "and not isinst(res, 'Dataset') and not isinst(res, 'DataArray') and isiterable(res), "
-                                  "is_seq(result) and slen(result) == slen(res) and "
-                                  "forall(lambda k: implies(0 <= k and k < slen(res), sget(result, k) == NanOfShape(sget(res, k)))))"),
+                                  "is_seq(result) and slen(result) == slen(iter_(res)) and "
+                                  "forall(lambda k: implies(0 <= k and k < slen(result), sget(result, k) == NanOfShape(sget(iter_(res), k)))))"),
               ("nan_for_scalar", "implies(not isinstance(res, bool) and not isinstance(res, str) and not isinstance(res, dict) "
                                  "and not isinst(res, 'Dataset') and not isinst(res, 'DataArray') and not isiterable(res), result == NumpyNan())"),
               ("full_like_for_labelled", "implies(isinst(res, 'Dataset') or isinst(res, 'DataArray'), result == FullLikeNan(res))"),
@@ -553,10 +553,10 @@ def install_core(R):
               ("ghost_grid", "is_seq(locs) and slen(locs) == slen(Prod(CVals(combos))) and slen(results_linear) == slen(locs) and "
                              "forall(lambda t: implies(0 <= t and t < slen(locs), sget(locs, t) == sget(Prod(CVals(combos)), t) and "
                              "sget(results_linear, Ord(shuffle, slen(locs), t)) == call_ret(old(ncalls()) + t)))"),
-              ("info_settings_in_result_order", "implies(info is not None and flat, mhas(info, 'settings') and mat(info, 'settings') == settings and "
+              ("info_settings_in_result_order", "implies(old(info) is not None and flat, mhas(info, 'settings') and mat(info, 'settings') == settings and is_seq(settings) and "
                                                 "slen(settings) == slen(locs) and forall(lambda g: implies(0 <= g and g < slen(locs), "
                                                 "sget(settings, g) == Kws(CArgs(combos), sget(locs, g), constants))))"),
-              ("info_labels", "implies(info is not None and not flat, mat(info, 'fn_args') == CArgs(combos) and "
+              ("info_labels", "implies(old(info) is not None and not flat, mat(info, 'fn_args') == CArgs(combos) and "
                               "mat(info, 'all_combo_values') == scat_(empty_seq(), CVals(combos)))"),
           ],
           raises={"AnyError": dict(), "ValueError": dict(when="False"), "TypeError": dict()})
@@ -589,7 +589,8 @@ def install_cases(R):
         x = z3.Const(fresh_name("x"), V)
         ca = S["CaseArgs"](eng, fr, cases).t
         co = S["CArgs"](eng, fr, combos).t
-        return mk_bool(z3.Exists([x], z3.And(T.sin(ca, x), T.sin(co, x))))
+        # same shape as the code's test `not set(case_args).isdisjoint(combo_args)`: a shared name
+        return mk_bool(z3.Exists([x], z3.And(T.mhas(T.set_of(ca), x), T.isin(co, x))))
     S["Overlap"] = overlap
 
     R.prop_meta["C02"] = dict(
@@ -608,4 +609,22 @@ def install_cases(R):
                   "AnyError": dict(), "TypeError": dict()},
           hooks={"stop_after_assign": "fn_args"},
           notes="region contract: the prefix of the body up to `fn_args = ...`; only the ValueError obligations are stated")
+    return R
+
+
+def install_core_summary(R):
+    """Caller-side contract of combo_runner_core: every clause proved for the grid variant, guarded by that variant's
+    preconditions (so callers that cannot establish the guard learn nothing beyond the file-system frame)."""
+    S = R.spec
+    base = R.get(CR + "combo_runner_core")
+    grid = R.get(CR + "combo_runner_core@grid")
+    guard = " and ".join(f"({txt})" for _, txt in grid.requires)
+    S["__grid_guard__"] = guard
+    for name, txt in grid.ensures:
+        base.ensures.append((f"grid.{name}", f"implies(old({guard}), {txt})"))
+    base.ghost_out = dict(grid.ghost_out)
+    base.out_params = ["info"]
+    base.fn_params = dict(grid.fn_params)
+    base.notes = ("derived: clauses 'grid.*' are exactly the postconditions discharged for combo_runner_core@grid (C01), guarded by its "
+                  "preconditions; for the cases branch only the file-system frame is assumed")
     return R
